@@ -68,6 +68,19 @@ class AsyncRecLogger(RecSink):
         self.events.append(_audit_event(payload))
 
 
+class _Awaitable:
+    """an awaitable that is NOT a coroutine object (what a Future, a Task or a client library's lazy call looks like)"""
+
+    def __init__(self, value=None, exc: BaseException | None = None):
+        self._value, self._exc = value, exc
+
+    def __await__(self):
+        yield from asyncio.sleep(0).__await__()
+        if self._exc is not None:
+            raise self._exc
+        return self._value
+
+
 class TableRel:
     """Recording relationship checker answering from a table keyed by (subject, relation, resource)."""
 
@@ -89,6 +102,11 @@ class TableRel:
             async def _c():
                 return self._answer(subject, relation, resource, context)
             return _c()
+        if self.mode == "awaitable":
+            try:
+                return _Awaitable(self._answer(subject, relation, resource, context))
+            except RuntimeError as e:
+                return _Awaitable(exc=e)
         return self._answer(subject, relation, resource, context)
 
 
@@ -105,6 +123,8 @@ class FixedChecker:
             async def _c():
                 return ok, ch
             return _c()
+        if self.mode == "awaitable":
+            return _Awaitable((ok, ch))
         return ok, ch
 
 
@@ -121,6 +141,8 @@ class FixedResolver:
             async def _c():
                 return val
             return _c()
+        if self.mode == "awaitable":
+            return _Awaitable(val)
         return val
 
 
@@ -134,7 +156,7 @@ def make_request(req: dict):
 
 def make_guard(policy: dict, cfg: dict, events: list, rel_calls: list | None = None, flavour: str = "sync", cache=None):
     kw: dict[str, Any] = {}
-    amode = "async" if flavour.endswith("collab-async") else "sync"
+    amode = "async" if flavour.endswith("collab-async") else "awaitable" if flavour.endswith("collab-awaitable") else "sync"
     ck = cfg.get("checker")
     if ck not in (None, "builtin"):
         kw["obligation_checker"] = FixedChecker(ck, amode)
@@ -146,9 +168,9 @@ def make_guard(policy: dict, cfg: dict, events: list, rel_calls: list | None = N
     if rel is not None:
         kw["relationship_checker"] = TableRel(rel["table"], rel.get("default"), rel_calls if rel_calls is not None else [], amode)
     if cfg.get("metrics"):
-        kw["metrics"] = (AsyncRecMetrics if amode == "async" else RecMetrics)(events, cfg.get("sink_mode", "sync"))
+        kw["metrics"] = (AsyncRecMetrics if amode != "sync" else RecMetrics)(events, cfg.get("sink_mode", "sync"))
     if cfg.get("logger"):
-        kw["logger_sink"] = (AsyncRecLogger if amode == "async" else RecLogger)(events, cfg.get("sink_mode", "sync"))
+        kw["logger_sink"] = (AsyncRecLogger if amode != "sync" else RecLogger)(events, cfg.get("sink_mode", "sync"))
     if cache is not None:
         kw["cache"] = cache
     return Guard(policy, strict_types=bool(cfg.get("strict")), **kw)
